@@ -40,6 +40,19 @@ def firstFail (l : List (Option String)) : Option String := l.findSome? id
 
 def chk (c : Bool) (msg : String) : Option String := if c then none else some msg
 
+/-- verdict sites. A capacity limit is named per ENTRY POINT: `limit.<entry point>.<capacity>`;
+`..._exact_refused` = the implementation refused an operation that lands exactly on the documented
+capacity, `..._over_accepted` = it accepted one that goes past it. -/
+def refusedSite (reg near : String) : String :=
+  if near.startsWith "limit." then
+    s!"site={reg}.{near}_exact_refused the implementation refused an operation that reaches the documented capacity exactly (the plain structure with its documented limits accepts it)"
+  else s!"site={reg}.{near}_refused the implementation refused an operation the plain structure (with its documented limits) accepts"
+
+def acceptedSite (reg why : String) : String :=
+  if why.startsWith "limit." then
+    s!"site={reg}.{why}_over_accepted the implementation accepted an operation that exceeds the documented capacity ({why})"
+  else s!"site={reg}.{why}_accepted the implementation accepted an operation the plain structure refuses ({why})"
+
 /-- `a..b` (half open) or a comma list -/
 def rangeOrList (s : String) : List Nat :=
   match s.splitOn ".." with
